@@ -464,3 +464,25 @@ def check_unconditional_contributions(prog: Program, res: Result, rule: str) -> 
                     a, tested = foreign
                     res.fail(rule, file=fi.file, line=getattr(node, "lineno", a.lineno), qualname=fi.qualname, construct=f"{fi.qualname}: self.{sorted(attrs)[0]} contributed only under a test of self.{sorted(tested)[0]}", message=f"{fi.qualname} hands `{norm(v, 40)}` to the traversals only when `{norm(a.test, 40)}` holds - a condition on a different attribute: when it is false the child is still rendered at run time but static analysis and message extraction never see it", what=what)
     res.floor(rule, "child contributions in children()/expressions()", n, 40)
+
+
+def check_arguments_before_bindings(prog: Program, res: Result, rule: str) -> None:
+    """A tag evaluates its own argument expressions in the scope it was written in: no `<expr>.evaluate[_async](context)` inside the
+    `with context.extend(…)` / `with context.loop(…)` block that pushes the tag's own bindings (C10.R5 = C07.R10)."""
+    node = prog.cls("liquid2.ast.Node")
+    n_with = 0
+    for fi in sorted(prog.all_functions(), key=lambda f: (f.file, f.node.lineno)):
+        if fi.cls is None or not prog.is_subclass(fi.cls, node) or fi.name not in ("render_to_output", "render_to_output_async"):
+            continue
+        for w in ast.walk(fi.node):
+            if not (isinstance(w, (ast.With, ast.AsyncWith)) and any(isinstance(it.context_expr, ast.Call) and isinstance(it.context_expr.func, ast.Attribute) and it.context_expr.func.attr in ("extend", "loop") and norm(it.context_expr.func.value) == "context" for it in w.items)):
+                continue
+            n_with += 1
+            inside = [c for b in w.body for c in ast.walk(b) if isinstance(c, ast.Call) and isinstance(c.func, ast.Attribute) and c.func.attr in ("evaluate", "evaluate_async") and c.args and norm(c.args[0]) == "context"]
+            site = f"{fi.file}:{w.lineno} {fi.qualname}"
+            what = f"{fi.qualname}: no argument expression is evaluated inside `with {norm(w.items[0].context_expr, 40)}`"
+            if not inside:
+                res.ok(rule, site, what, "arguments are evaluated before the bindings are pushed")
+            for c in inside:
+                res.fail(rule, file=fi.file, line=c.lineno, qualname=fi.qualname, construct=f"{fi.qualname}: `{norm(c, 40)}` inside `with {norm(w.items[0].context_expr, 30)}`", message=f"{fi.qualname} evaluates `{norm(c, 40)}` after pushing its own bindings: a name the tag binds (a keyword argument, the loop variable) shadows the caller's variable of that name inside the tag's own argument list - `{{% include 'p' with x as y, x: 'kw' %}}` binds y to 'kw', not to the caller's x", what=what)
+    res.floor(rule, "with context.extend/loop blocks in render methods", n_with, 8)
